@@ -217,7 +217,18 @@ func genUniform(r *rand.Rand) []byte {
 	return b
 }
 
+// the boundary catalogue around 2^31, 2^32, 2^63, 2^64, 2^255 (KVMAsm!Consts), as minimal big-endian bytes
+var boundaryConsts = [][]byte{{1, 0, 0}, {0x7f, 0xff, 0xff, 0xff}, {0x80, 0, 0, 0}, {0xff, 0xff, 0xff, 0xff}, {1, 0, 0, 0, 0},
+	{0x7f, 0xff, 0xff, 0xff, 0xff, 0xff, 0xff, 0xff}, {0x80, 0, 0, 0, 0, 0, 0, 0},
+	{0xff, 0xff, 0xff, 0xff, 0xff, 0xff, 0xff, 0xdf}, {0xff, 0xff, 0xff, 0xff, 0xff, 0xff, 0xff, 0xe0}, {0xff, 0xff, 0xff, 0xff, 0xff, 0xff, 0xff, 0xf0},
+	{0xff, 0xff, 0xff, 0xff, 0xff, 0xff, 0xff, 0xff}, {1, 0, 0, 0, 0, 0, 0, 0, 0}, {1, 0, 0, 0, 0, 0, 0, 0, 1},
+	append([]byte{0x80}, make([]byte, 31)...)}
+
 func pushRand(r *rand.Rand, c []byte) []byte {
+	if r.Intn(6) == 0 {
+		b := boundaryConsts[r.Intn(len(boundaryConsts))]
+		return append(append(c, byte(0x5f+len(b))), b...)
+	}
 	switch r.Intn(10) {
 	case 0: // huge
 		n := []int{4, 8, 9, 20, 32}[r.Intn(5)]
@@ -395,6 +406,10 @@ func TestRandom(t *testing.T) {
 					det := map[string]interface{}{"generator": gen, "code": fmt.Sprintf("%x", code), "codeB": fmt.Sprintf("%x", other), "input": fmt.Sprintf("%x", input),
 						"gas": gas, "value": value, "create": create, "galaxias": gal, "seed": mbt.Seed(), "status": r1.status, "err": r1.errText}
 					// the outcome domain of the specification: a result or an error value
+					if r1.status == "panic" {
+						res.Mismatch(r1.panicSig(), fmt.Sprintf("the real machine panics on a %s byte string: %s", gen, r1.errText), det)
+						continue
+					}
 					if r1.status != "ok" && r1.status != "rev" && r1.status != "fail" {
 						res.Mismatch("kvm:"+r1.status+":random-"+gen, fmt.Sprintf("the real machine %ss on a %s byte string: %s", r1.status, gen, r1.errText), det)
 						continue
